@@ -144,8 +144,11 @@ HandWritten == <<
   Sc("none", << >>, << >>)
 >>
 
-MCScenarios     == Systematic \o HandWritten
-MCScenariosHand == HandWritten
+MCScenarios    == Systematic \o HandWritten
+\* the rule sets walked with two cells changed at once (the interplay of two
+\* conditions: stop-if-true, AND, both sides of a comparison)
+MCScenariosTwo == SelectSeq(HandWritten, LAMBDA s : s.name \in
+   {"fixture", "order", "multi2", "leave", "sheets", "derived", "samefmt", "and", "stops"})
 
 \* ---- queries ------------------------------------------------------------------
 Q(k, sh, rect, items) == [k |-> k, sh |-> sh, rect |-> rect, items |-> items]
